@@ -324,7 +324,10 @@ def convert_reuse(ap_file, w1, w2, **kw):
         with time_limit(2 * RUN_LIMIT_S, "NP2Converter run (twice)", kw.get("max_bytes")):
             import neuropixel
             conv = neuropixel.NP2Converter(ap_file, post_check=kw.get("post_check", False), compress=False, delete_original=False)
-            conv.init_params(nwindow=w1)
+            # first_nsamples: the first run converts only a part (init_params(nsamples=...)); the second init_params does not say
+            # nsamples, which means the whole recording (seed round i: the partial length of the earlier call was kept)
+            first_kw = {"nsamples": int(kw["first_nsamples"])} if kw.get("first_nsamples") else {}
+            conv.init_params(nwindow=w1, **first_kw)
             st1, note = norm_status(conv.process(), "the first process()")
             if st1 != 1:
                 return st1, [], conv, note or f"first run returned {st1}"
